@@ -22,6 +22,7 @@ from openpectus.engine.engine_message_builder import EngineMessageBuilder
 from openpectus.engine.engine_message_handlers import EngineMessageHandlers
 from openpectus.lang.exec.events import EventListener
 
+_sched_hook = False
 CMDS = ("Long", "Long2", "Other", "Drive1", "Short", "Long", "Long2", "Set1: 3")
 OVERLAP = (frozenset(("Long", "Long2")),)
 CONCLUSIVE = ("completed", "failed", "cancelled")
@@ -177,7 +178,15 @@ def records_plain(rig: R.EngineRig) -> list[tuple]:
     return out
 
 
-def classify_records(records: list[tuple], requested_ids=()) -> tuple[str | None, str]:
+def shared_instance_ids() -> set:
+    """instance ids handed to CommandManager.schedule more than once (two interpreter paths walking one line)"""
+    n: dict[str, int] = {}
+    for q in REQS:
+        n[q[2]] = n.get(q[2], 0) + 1
+    return {i for i, c in n.items() if c >= 2}
+
+
+def classify_records(records: list[tuple], requested_ids=(), tainted_ids=(), shared_ids=()) -> tuple[str | None, str]:
     """Names the cause of 'a state follows a conclusive state' (which makes get_runlog raise). Returns (suffix, text)."""
     for name, cls, node_id, insts in records:
         # a request addresses an item id, but Tracking.mark_forced/mark_cancelled book the state on the newest
@@ -209,12 +218,34 @@ def classify_records(records: list[tuple], requested_ids=()) -> tuple[str | None
                 # cancel accepted while the line was visited but its command not yet started (one-tick window): only the
                 # node flag is set, the already scheduled command request starts anyway
                 return "command_cancelled_before_start_still_starts", desc
-            older_open = [(o, on) for o, on in insts[:k] if "started" in on and not any(n in CONCLUSIVE for n in on)]
-            if names[:first] == ["created"] and names[first] in ("completed", "cancelled") and older_open:
-                # the conclusion of an older, really executing instance of this line was booked on the instance id
-                # created by the line's next visit (Tracking.mark_completed/mark_cancelled use record.last_instance_id)
+            if iid in shared_ids and cls in ("UodCommandNode", "EngineCommandNode"):
+                # two CommandRequests under one instance id (visit_*CommandNode uses record.last_instance_id; stale
+                # Watch/Alarm handler walking the same line, C02 finding): the second cancels/re-creates the first
+                return "two_requests_share_one_instance_id", desc
+            if cls == "UodCommandNode" and names[:first] == ["created"] and names[first] == "failed" and "started" in tail:
+                # unparsable arguments: the request is dropped and marked failed, but the command instance created just
+                # before parsing stays in uod.command_instances; the next request of that command re-uses it under the
+                # old instance id, so its started state is booked on the failed instance
+                return "uod_command_with_invalid_arguments_stays_registered", desc
+            if cls == "UodCommandNode" and names == ["created", "cancelled", "failed"]:
+                # same leak, next run/request: the stale command object carries the old instance id, marking it started
+                # raises, the new request is cancelled and failed without ever having started
+                return "uod_command_with_invalid_arguments_stays_registered", desc
+            if cls == "UodCommandNode" and iid in tainted_ids and names[first] == "cancelled" \
+                    and tail[0] in ("completed", "failed", "cancelled"):
+                # same-tick burst of conflicting requests (C11.conflicting_requests_in_one_tick): the request was marked
+                # cancelled while the instance of another request was finalized; it keeps executing and concludes again
+                return "cancelled_request_keeps_executing_after_same_tick_conflict", desc
+            older = [(o, on) for o, on in insts[:k] if "started" in on]
+            booked_before_start = names[:first] == ["created"] and names[first] in ("completed", "cancelled")
+            second_conclusion = k == len(insts) - 1 and tail[0] in ("completed", "cancelled") and \
+                any("uodcommandset" in on or "internalenginecommandset" in on for _, on in older)
+            if older and (booked_before_start or second_conclusion):
+                # the conclusion of another (older, really executing) instance of this line was booked on the record's
+                # newest instance id (Tracking.mark_completed/mark_cancelled use record.last_instance_id): either before
+                # that instance has started, or as a second conclusion after its own
                 return "conclusion_recorded_on_newer_instance_of_same_line", \
-                    desc + f"; older instance still open: {older_open[0][1]}"
+                    desc + f"; older instance of the same record: {older[-1][1]}"
             return None, desc
     return None, "no record with a state after a conclusive state found"
 
@@ -232,8 +263,38 @@ def misbooked_conclusions(records: list[tuple]) -> set:
     return out
 
 
+UOD_NAMES = ("Short", "Long", "Long2", "Other", "Fail", "Set1", "SetPlain", "Drive1", "Set2", "Mode")
+
+
+def std_conflicts(a: str, b: str) -> bool:
+    return a == b or any(a in o and b in o for o in OVERLAP)
+
+
+def tainted_by_bursts(rig: R.EngineRig) -> set:
+    """instance ids touched by same-tick bursts of conflicting requests or by the Stop race (needs install_schedule_hook
+    and REQS cleared at the start of the run)."""
+    alive: set = set()
+    alive_at: dict[int, set] = {}
+    name_of: dict[str, str] = {}
+    cur = None
+    for ev in rig.cmdlog:
+        if ev[0] != cur:
+            cur = ev[0]
+            alive_at[cur] = set(alive)
+        name_of.setdefault(ev[3], ev[2])
+        if ev[1] == "init":
+            alive.add(ev[3])
+        elif ev[1] == "fin":
+            alive.discard(ev[3])
+    reqs = list(REQS)
+    b = burst_tainted(reqs, alive_at, name_of, std_conflicts, UOD_NAMES)
+    out = set().union(*b.values()) if b else set()
+    return out | stop_race_tainted(reqs, alive_at, name_of, std_conflicts, UOD_NAMES)
+
+
 def classify_unproducible(rig: R.EngineRig, requested_ids=()) -> tuple[str | None, str]:
-    suffix, desc = classify_records(records_plain(rig), requested_ids)
+    tainted = tainted_by_bursts(rig) if _sched_hook else ()
+    suffix, desc = classify_records(records_plain(rig), requested_ids, tainted, shared_instance_ids() if _sched_hook else ())
     return ("C15." + suffix if suffix else None), desc
 
 
@@ -353,7 +414,6 @@ def reset_request_hooks():
 
 
 REQS: list[tuple] = []      # (command-manager tick that dequeues it, name, instance_id, source)
-_sched_hook = False
 
 
 def install_schedule_hook():
@@ -373,7 +433,8 @@ def install_schedule_hook():
     CommandManager.schedule = schedule
 
 
-def stop_race_tainted(reqs: list[tuple], alive_at_tick_start: dict, name_of: dict, conflicts, uod_names) -> set:
+def stop_race_tainted(reqs: list[tuple], alive_at_tick_start: dict, name_of: dict, conflicts, uod_names,
+                      init_ticks: dict | None = None) -> set:
     """instance ids touched by the Stop race: a UOD request queued *before* a Stop/Restart request that is dequeued by
     the same command-manager tick. Newer requests are put first, so the Stop's cancel phase runs before the command is
     created (cancel "by name" then hits nothing, or the instance of an older conflicting request); afterwards the
@@ -386,4 +447,7 @@ def stop_race_tainted(reqs: list[tuple], alive_at_tick_start: dict, name_of: dic
             if o[0] == q[0] and o[1] in uod_names:
                 out.add(o[2])
                 out |= {a for a in alive_at_tick_start.get(q[0], ()) if a in name_of and conflicts(name_of[a], o[1])}
+                if init_ticks:
+                    # an older conflicting request that (re-)creates its instance in the Stop's cancel tick
+                    out |= {a for a, ticks in init_ticks.items() if q[0] in ticks and conflicts(name_of[a], o[1])}
     return out
